@@ -326,6 +326,67 @@ func runC04(c *RuleCtx) {
 			return true
 		})
 		if n == 0 {
+			// the partition may live in a private helper: inline, async := partition(vals, synchronous). Follow the
+			// list handed to doValidateTopic to the helper result it is assigned from, and the synchronous flag to the
+			// helper parameter it is passed as
+			for _, cs := range p.Sites(f, true, "(*validation).doValidateTopic") {
+				a0, ok := cs.Call.Args[0].(*ast.Ident)
+				if !ok {
+					continue
+				}
+				obj := f.Info().Uses[a0]
+				for _, d := range p.R(f).Defs(obj) {
+					call, ok := unparen(d.rhs).(*ast.CallExpr)
+					if d.kind != "assign" || d.rhs == nil || !ok || d.idx < 0 {
+						continue
+					}
+					h := p.Fn(p.CalleeName(f.Info(), call))
+					if h == nil || h.Body == nil || h.Type.Results == nil {
+						continue
+					}
+					// the helper parameter that receives `synchronous`
+					syncIdx := -1
+					for i, a := range call.Args {
+						if isParam(f, 3)(p.R(f).Val(a)) {
+							syncIdx = i
+						}
+					}
+					// the result variable at position d.idx
+					var resObj types.Object
+					k := 0
+					for _, fl := range h.Type.Results.List {
+						for _, nm := range fl.Names {
+							if k == d.idx {
+								resObj = h.Info().Defs[nm]
+							}
+							k++
+						}
+					}
+					if resObj == nil {
+						returnsIn(h, func(r *ast.ReturnStmt) {
+							if d.idx < len(r.Results) {
+								if id, ok := unparen(r.Results[d.idx]).(*ast.Ident); ok {
+									resObj = h.Info().Uses[id]
+								}
+							}
+						})
+					}
+					if syncIdx < 0 || resObj == nil {
+						continue
+					}
+					hs := AtomBool("synchronous", isParam(h, syncIdx))
+					for _, ap := range p.localAppends(h) {
+						if ap.Obj != resObj {
+							continue
+						}
+						n++
+						ok3, why := p.DomAny(h, ap.Stmt, AtomWant{hs, false})
+						c.Check(ok3, "R04.6", f.Name, "validators go to the async list only when not synchronous", ap.Stmt, why, why)
+					}
+				}
+			}
+		}
+		if n == 0 {
 			c.Undecided("R04.6", f.Name, "async list", f.Decl, "append to the asynchronous validator list not found")
 		}
 	}
